@@ -515,3 +515,28 @@ Definition c10_check (I : instance) (p : plan) : bool :=
      (map fst p) (map t_id (nonrunning I)) &&
   forallb (fun t => match plan_get p (t_id t) with Some d => decision_ok I t d | None => false end) (nonrunning I) &&
   capacity_ho_check I p.
+
+(* ------------------------------------------------------------------ occupancy read directly off an assignment *)
+Definition on (a : assignment) (t : task) (sl : slot) : Z := eval_pterm a (pv t sl).
+Definition st_of (I : instance) (a : assignment) (t : task) : Z := eval_pterm a (startv I t).
+(* t occupies slot sl (worker, strategy) at instant tau, closed interval [start, start + runtime] *)
+Definition active_a (I : instance) (a : assignment) (t : task) (sl : slot) (tau : Z) : bool :=
+  (on a t sl =? 1) && (st_of I a t <=? tau) && (tau <=? st_of I a t + slot_rt sl).
+Definition usage_a (I : instance) (a : assignment) (w : Z * worker) (r tau : Z) : Z :=
+  sum_list (fun t => sum_list (fun ks => if active_a I a t (w, ks) tau then req (snd ks) r else 0) (senum t)) (i_tasks I).
+(* decided tasks that depend on one another are linked by a chain of co-decided parents *)
+Inductive linked (I : instance) : task -> task -> Prop :=
+| linked_step : forall x y, In y (nonrunning I) -> In x (decided_parents I y) -> linked I x y
+| linked_trans : forall x z y, linked I x z -> In y (nonrunning I) -> In z (decided_parents I y) -> linked I x y.
+Definition dep_linked (I : instance) : Prop :=
+  forall x y, In x (i_tasks I) -> In y (i_tasks I) -> dependent I x y = true -> linked I x y \/ linked I y x.
+Fixpoint linkedb (fuel : nat) (I : instance) (x y : task) : bool :=
+  match fuel with
+  | O => false
+  | S f => negb (is_running y) &&
+           existsb (fun z => (t_id z =? t_id x) || linkedb f I x z) (decided_parents I y)
+  end.
+Definition dep_linkedb (I : instance) : bool :=
+  forallb (fun p => negb (dependent I (fst p) (snd p)) ||
+                    linkedb (length (i_tasks I)) I (fst p) (snd p) || linkedb (length (i_tasks I)) I (snd p) (fst p))
+          (list_prod (i_tasks I) (i_tasks I)).
